@@ -22,7 +22,8 @@ ASSUMPTIONS = [
     "start + duration stays within the source media (the management API enforces nothing here, so longer periods "
     "are generated too and classified separately)",
     "Period start/duration tolerance 1 ms (formatter); first segment of a Period = stored segment whose start is "
-    "nearest the Period's source offset (ties: either)",
+    "nearest the Period's source offset (ties, and candidates whose distances differ by less than one tick of the "
+    "track timescale, the quantisation of the millisecond offset: either)",
 ]
 _env = {}
 SYNTH = [
@@ -61,7 +62,9 @@ def stream_name(key):
 def nearest_index(starts: list[int], durs: list[int], offset: Fraction) -> set[int]:
     """indices of the stored segment(s) whose start is nearest `offset` (ticks)"""
     best = min(abs(Fraction(s) - offset) for s in starts)
-    return {i for i, s in enumerate(starts) if abs(Fraction(s) - offset) == best}
+    # the Period offset is a millisecond value; expressed in the track's timescale it is quantised to a tick, so
+    # two candidates whose distances differ by less than two ticks (one tick of offset error moves both distances) are both "nearest"
+    return {i for i, s in enumerate(starts) if abs(Fraction(s) - offset) <= best + 2}
 
 
 def check_mps(case) -> Outcome:
